@@ -111,7 +111,9 @@ CHECKS = {
               "Oracle: bytes read at each end are a prefix of what the peer's writes were given; after the tail they equal the "
               "accepted prefixes (n of each Write); Write with err==nil delivered fully; isolated losses never fail a Write; "
               "every Write terminates. A separate run pushes >66000 packets per direction (fragment 1-2) with sparse isolated "
-              "faults (sequence wrap). non-trivial = history with a non-delivered fate and a write spanning > 1 fragment"),
+              "faults (sequence wrap). Layer B runs the real Handshake() with its background poll goroutine and applies a "
+              "pre-drawn fate list (20-400 exchanges, consumed in exchange order) while 1-9000 bytes move both ways: isolated "
+              "losses must be absorbed completely, burst losses may fail a write but never corrupt or hang. non-trivial = history with a non-delivered fate and a write spanning > 1 fragment"),
         assumptions=["the client's poll goroutine is replaced by harness-driven polls (same code path: SendAndReceive(out.NextChunk()))",
                      "losses use the real time-out error shape of NetConnectionClientCommunicator"],
         quick=dict(run=".", checks=500, steps=60, timeout=900),
